@@ -56,8 +56,8 @@ class DocumentDownloadableMediaMessageProtocolEntity(DownloadableMediaMessagePro
 
     @property
     def jpeg_thumbnail(self):
-        return self.media_specific_attributes.image_message.jpeg_thumbnail
+        return self.media_specific_attributes.jpeg_thumbnail
 
     @jpeg_thumbnail.setter
     def jpeg_thumbnail(self, value):
-        self.media_specific_attributes.image_message.jpeg_thumbnail = value
+        self.media_specific_attributes.jpeg_thumbnail = value
